@@ -256,9 +256,15 @@ func c04Enumerate(bin string, master uint64, tier string) ([]*spec.RunSpec, []st
 			}
 		}
 	}
-	if tier != "thorough" && len(out) > 1400 {
-		// quick tier: a strided subset (the thorough tier runs the whole list)
-		stride := len(out)/1400 + 1
+	limit := 1400
+	if tier == "thorough" {
+		// the full list of the 12 thorough shapes is about 200 000 runs (two hours on 16
+		// cores): the thorough tier takes a strided fifth of it, a different fifth per seed
+		limit = 40000
+	}
+	if len(out) > limit {
+		// a strided subset whose offset comes from the seed
+		stride := len(out)/limit + 1
 		var sub []*spec.RunSpec
 		off := int(master % uint64(stride))
 		for i := off; i < len(out); i += stride {
@@ -306,7 +312,7 @@ func addMutation(s *spec.RunSpec, transport string, g spec.SegGeo, p int64, kind
 func init() {
 	register(&propDef{
 		id: "C04", level: "fault_enumeration", quickRuns: 48, thoroughRuns: 1500, wallPerRun: 5 * time.Minute,
-		rule:        "For each traffic shape (two multiplexed sessions of one user plus a second user's session, padding on, low-entropy mode varied, TCP or UDP) a fault-free reference pass records the byte geometry of every segment from the tap; then ONE in-path mutation per run is enumerated: every segment x every field class present (nonce, encrypted metadata, metadata tag, middle padding, payload body, payload tag, end padding) x offsets (first/middle/last byte; every byte of short fields and random interior bytes in the thorough tier) x kind (bit flip, byte substitution, 1-byte insertion, 1-byte deletion, truncation) plus whole-segment swap, duplication, removal and splices from another session / another user's connection. The enumerated list is exhaustive for the stated positions of the chosen shapes; random C01/C02-style shapes with one random mutation are added on top. Oracle: TCP - bytes read are a prefix of the PRF stream; UDP - the stream completes intact within the progress bound (a corrupted datagram counts as one loss); never a differing byte; no crash. UDP splices also cross directions and flows: a datagram is replaced by an authentic earlier datagram of the SAME session that travelled the other way (same sequence number if there is one), and by a datagram of a session still in progress on another flow (a second machine of the same user, or another user); datagram rules are scoped to one flow.",
+		rule:        "For each traffic shape (two multiplexed sessions of one user plus a second user's session, padding on, low-entropy mode varied, TCP or UDP) a fault-free reference pass records the byte geometry of every segment from the tap; then ONE in-path mutation per run is enumerated: every segment x every field class present (nonce, encrypted metadata, metadata tag, middle padding, payload body, payload tag, end padding) x offsets (first/middle/last byte; every byte of short fields and random interior bytes in the thorough tier) x kind (bit flip, byte substitution, 1-byte insertion, 1-byte deletion, truncation) plus whole-segment swap, duplication, removal and splices from another session / another user's connection. The enumerated list is exhaustive for the stated positions of the chosen shapes, and each tier runs a strided subset of it whose offset depends on the seed (quick: 1400; thorough: 40 000 of about 200 000); random C01/C02-style shapes with one random mutation are added on top. Oracle: TCP - bytes read are a prefix of the PRF stream; UDP - the stream completes intact within the progress bound (a corrupted datagram counts as one loss); never a differing byte; no crash. UDP splices also cross directions and flows: a datagram is replaced by an authentic earlier datagram of the SAME session that travelled the other way (same sequence number if there is one), and by a datagram of a session still in progress on another flow (a second machine of the same user, or another user); datagram rules are scoped to one flow.",
 		assumptions: []string{"one seed = one execution, so the geometry of the reference pass is valid up to the mutation point (determinism self-test)", "positions are exhaustive only for the shapes listed in the evidence file"},
 		components:  realComponents,
 		enumerate:   c04Enumerate,
